@@ -132,19 +132,59 @@ func notFoundEdgesOf(fn *ssa.Function, gets ...ssa.CallInstruction) []cfgx.Edge 
 	var out []cfgx.Edge
 	for _, nf := range calls(fn, kerr+".IsNotFound") {
 		arg := cfgx.CallArgs(nf)[0]
-		// the argument may be a phi of two Get errors (cached, then uncached):
-		// the edge counts only if *every* error that can reach it here is one of gets
-		// at this program point; we approximate by requiring that the IsNotFound
-		// call is dominated by one of gets and is after it.
+		for {
+			if ci, ok := arg.(*ssa.ChangeInterface); ok {
+				arg = ci.X
+				continue
+			}
+			break
+		}
+		t, _ := cfgx.CallCondEdges(nf)
 		for _, g := range gets {
 			ev := cfgx.ErrorResult(g)
 			if ev == nil {
 				continue
 			}
-			if flow.Strict.Any(arg, func(v ssa.Value) bool { return v == ev }) && g.Block().Dominates(nf.Block()) {
-				t, _ := cfgx.CallCondEdges(nf)
+			// the error itself
+			if arg == ev {
 				out = append(out, t...)
+				continue
 			}
+			// an error variable assigned on several branches (cached, then uncached
+			// Get): the NotFound edge speaks about g only on the paths that reach the
+			// phi through the edge carrying g's error
+			out = append(out, viaPhi(arg, ev, t, "", 0)...)
+		}
+	}
+	return out
+}
+
+// viaPhi contextualises edges es for the paths on which phi-value v stands for leaf.
+func viaPhi(v, leaf ssa.Value, es []cfgx.Edge, via string, depth int) []cfgx.Edge {
+	phi, ok := v.(*ssa.Phi)
+	if !ok || depth > 4 {
+		return nil
+	}
+	var out []cfgx.Edge
+	for i, e := range phi.Edges {
+		for {
+			if ci, ok := e.(*ssa.ChangeInterface); ok {
+				e = ci.X
+				continue
+			}
+			break
+		}
+		nv := cfgx.ViaOf(phi.Block(), i)
+		if via != "" {
+			nv = nv + ";" + via
+		}
+		if e == leaf {
+			for _, x := range es {
+				x.Via = nv
+				out = append(out, x)
+			}
+		} else if _, isPhi := e.(*ssa.Phi); isPhi {
+			out = append(out, viaPhi(e, leaf, es, nv, depth+1)...)
 		}
 	}
 	return out
